@@ -364,9 +364,9 @@ def loss_problems(inputs, out):
                     want = [tuple(emaps[k].get(int(e), ())) for e in mem]
                 else:
                     want = []
-                    for (e, s) in mem:
+                    for (e, s) in mem:          # inputs are valid meshes (checked by the caller)
                         t = pm["vtris"][int(e)]
-                        a, b = maps[k].get(int(t[int(s)])), maps[k].get(int(t[(int(s) + 1) % 3]))
+                        a, b = maps[k].get(int(t[int(s) % 3])), maps[k].get(int(t[(int(s) + 1) % 3]))
                         want.append((a, b))
 
                 def missing_from(omem):
